@@ -1,5 +1,6 @@
 """C04 / C05 / C12 driver: spec/MC_Sub.tla -> real substitute() -> spec/Trace_Sub.tla"""
 from . import absmap as am
+from .common import safe_repr
 from . import core, mutants, valgen
 from .common import try_abs, tla_set
 
@@ -27,7 +28,7 @@ def observe(real, s, v_abs, v_real, nprobes, rng):
     import d42
     ev = {"s": s, "v": v_abs, "exc": "", "rep": False, "r": [], "conf_sv": ok_validate(real, v_real),
           "conf_rv": False, "gens": [], "probes": [], "again": {"exc": "", "eq": True, "ne": False},
-          "srepr": repr(real)[:300], "vrepr": repr(v_real)[:200]}
+          "srepr": safe_repr(real)[:300], "vrepr": safe_repr(v_real)[:200]}
     try:
         result = d42.substitute(real, v_real)
     except BaseException as e:  # noqa: the exception type is the observation
@@ -35,7 +36,7 @@ def observe(real, s, v_abs, v_real, nprobes, rng):
         return ev
     ev["rep"], ev["r"] = try_abs(am.a_schema, result)
     try:
-        ev["rrepr"] = repr(result)[:300]
+        ev["rrepr"] = safe_repr(result)[:300]
     except Exception as e:
         ev["rrepr"] = "<repr raised %s>" % type(e).__name__
     ev["conf_rv"] = ok_validate(result, v_real)
